@@ -20,7 +20,7 @@ func init() {
 			"Not covered: purity of reflect.Type methods (trusted).",
 		Assume:  []string{"reflect.Type methods are pure functions of the type"},
 		Trusted: []string{"go/types", "go/ssa"},
-		Run:     func(c *Ctx) { runC08(c); base(c, "STATE", "LRU") },
+		Run:     func(c *Ctx) { runC08(c); base(c, "STATE", "LRU", "FACADE") },
 	})
 }
 
